@@ -24,6 +24,12 @@ module-context argument, every callee world `w` and every fuel:
 * `front_then_passes_refines` — composition with `ssa_passes_sound`: specification → SSA → optimised SSA
                           (`runPasses`, also with the alias table dropped, as the back end sees it).
 
+* `front_refines_ext`  — the front end alone, for the fragment EXTENDED by `i32.extend8_s/16_s`, `i64.extend8_s/16_s`
+                          (`Wz.Model.FrontendSLX`: the front end emits `SExtend x, 8->32` etc., which the SSA model of the
+                          pass proofs lacks; it is wrapped, `runX`, not edited): same statement as `front_refines`;
+* `front_ext_conservative` — on functions of the base fragment the extended translator, the extended reference
+                          semantics and the wrapped SSA semantics are the base ones.
+
 Fragment: i32/i64 `const`, `local.get/set/tee`, `drop`, `select`, `add sub mul and or xor shl shr_s shr_u rotl
 rotr`, the ten comparisons, `eqz`, `clz ctz popcnt`, `i32.wrap_i64`, `i64.extend_i32_s/u`, `i64.extend32_s`,
 the trapping `div_s div_u rem_s rem_u`, `return`, the function's `end`; parameters, locals and (any number of)
@@ -31,10 +37,11 @@ results of type i32/i64.
 -/
 import Wz.Proofs.C01_Front
 import Wz.Proofs.C01_Front_WFLower
+import Wz.Proofs.C01_FrontX
 import Wz.Props.C01_Ssa
 
 namespace Wz.C01
-open Wz.Model.SsaPass Wz.Model.FrontendSL Wz.Proofs.Front
+open Wz.Model.SsaPass Wz.Model.FrontendSL Wz.Model.FrontendSLX Wz.Proofs.Front
 
 /-- **The front end preserves the semantics.**  For every well-typed function of the fragment, every argument
 vector within the parameter types, every context arguments, callee world and fuel: the SSA function the front
@@ -128,5 +135,50 @@ example : wellTyped frontRetExample = true := by decide
 
 example : format frontRetExample =
     ["blk0: (exec_ctx:i64, module_ctx:i64, v2:i64)", "v3:i64 = Popcnt v2", "Return v3"] := by decide
+
+/-! ### the extension by the narrow sign extensions -/
+
+/-- **The front end preserves the semantics, extended fragment** (`i32.extend8_s`, `i32.extend16_s`, `i64.extend8_s`,
+`i64.extend16_s` in addition): the wrapped SSA function `lowerX f` has the outcome of the reference semantics. -/
+theorem front_refines_ext (f : FnX) (hwt : wellTypedX f = true) (args : List Nat) (hargs : ArgsOK f.sig args)
+    (w : World) (ec mc : Nat) (n : Nat) (hn : f.body.length + 3 ≤ n) :
+    runX w (lowerX f) (ec :: mc :: args) = ofSpec (runSpecX f args n) ∧
+    ofSsa (runX w (lowerX f) (ec :: mc :: args)) = runSpecX f args n ∧
+    runSpecX f args n ≠ .exhausted :=
+  lowerX_refines_full f hwt args hargs w ec mc n hn
+
+/-- **The extension is conservative**: on a (well-typed) function of the base fragment the extended translator emits
+the same instructions, the extended reference semantics is the base one, and the wrapped SSA semantics of the result is
+`SsaPass.run` on `lowerSL f`. -/
+theorem front_ext_conservative (f : Fn) (hwt : wellTyped f = true) (w : World) (args : List Nat) (fuel n : Nat) :
+    lowerX (toX f) = ⟨entryParams f, (entryInstrs f).map .base⟩ ∧
+    runSpecX (toX f) args n = runSpec f args n ∧
+    runX w (lowerX (toX f)) args = run w (lowerSL f) args (fuel + 1) := by
+  obtain ⟨h1, h2⟩ := lowerX_base f
+  have hl : lowerX (toX f) = ⟨entryParams f, (entryInstrs f).map .base⟩ := by
+    cases hx : lowerX (toX f) with
+    | mk ps is => rw [hx] at h1 h2; simp only at h1 h2; rw [h1, h2]
+  refine ⟨hl, ?_, ?_⟩
+  · have : (toX f).toModule = f.toModule := by
+      simp only [FnX.toModule, Fn.toModule, toX, List.map_map]
+      rfl
+    simp only [runSpecX, runSpec, this]
+  · rw [hl, lowerSL_eq_sb]
+    exact runX_base w _ _ (lower_static f hwt).1 args fuel
+
+/-- non-vacuity: `local.get 0; i32.extend8_s; local.get 1; i64.extend16_s` -/
+def frontExtExample : FnX :=
+  { params := [.i32, .i64], results := [.i32, .i64], locals := [],
+    body := [.base (.localGet 0), .ext .i32 .w8, .base (.localGet 1), .ext .i64 .w16] }
+
+example : wellTypedX frontExtExample = true := by decide
+
+example : formatX frontExtExample =
+    ["blk0: (exec_ctx:i64, module_ctx:i64, v2:i32, v3:i64)", "v4:i32 = SExtend v2, 8->32",
+     "v5:i64 = SExtend v3, 16->64", "Jump blk_ret, v4, v5"] := by decide
+
+/-- a test on one input: 0x80 ↦ 0xffffff80, 0x18000 ↦ 0xffffffffffff8000 -/
+example (w : World) : runX w (lowerX frontExtExample) [0xec, 0x3c, 0x80, 0x18000] =
+    .values [0xffffff80, 0xffffffffffff8000] [] [] := by rfl
 
 end Wz.C01
